@@ -142,6 +142,8 @@ def worker_main(argv):
 
     prop = load_prop(pid)
     bud = prop.budget(tier)
+    if os.environ.get("VERIF_TIME_BUDGET"):
+        bud["time_budget"] = int(os.environ["VERIF_TIME_BUDGET"])  # shorter (or longer) exploration with the same generator and limits
     rec = {
         "evaluations": 0, "status": {}, "tags": {}, "refusals": {}, "nontrivial_keys": [], "samples": [],
         "known_hits": {}, "violations": [], "harness_errors": [], "shrink_calls": 0, "inconclusive": 0,
